@@ -129,6 +129,8 @@ type RawPeer struct {
 	HelloSplit int
 	// CloseBlocked: Close of the in-process transport did not return within 30 simulated seconds
 	CloseBlocked bool
+	// ForceID is the session id a scripted step with id mode 4 presents
+	ForceID string
 }
 
 // helloConn writes the first TLS flight as delim+flight[:split], a pause, flight[split:].
@@ -496,6 +498,13 @@ func (p *RawPeer) UpgradeTLS(server bool) error {
 	var under net.Conn = &wsSkipConn{Conn: p.raw}
 	if p.HelloDelim != "" || p.HelloSplit > 0 {
 		under = &helloConn{Conn: under, delim: p.HelloDelim, split: p.HelloSplit}
+		if i := strings.Index(p.HelloDelim, "{"); i >= 0 {
+			// (what travels in front of the hello is an envelope: it is part of what this peer said)
+			var m map[string]interface{}
+			if json.Unmarshal([]byte(strings.TrimSpace(p.HelloDelim[i:])), &m) == nil && m != nil {
+				p.note("c-send", m, "", "in front of the TLS hello")
+			}
+		}
 	}
 	var tc *tls.Conn
 	if server {
